@@ -103,10 +103,34 @@ pub fn check(prog: &Prog, kind: Kind, plan: &Plan, refrun: &RefRun, refnp: &RefR
 
     if obs.outcome == Outcome::Cancelled {
         sum.cut_short = true;
-        // after cancellation only the ledger and "no unknown events" are checked
+        // after cancellation: the ledger, "no unknown events", and nothing may run any more except inside tasks that were
+        // legitimately spawned (a step with more than one active branch of a task-spawning macro): everything else was owned
+        // by the dropped future
+        let cancel_seq = obs.log.iter().find(|r| r.ph == Ph::Cancel).map(|r| r.seq).unwrap_or(u32::MAX);
         for ((ev, occ), _) in oev.iter() {
             if !refnp.events.iter().any(|e| e.ev == *ev && e.occ == *occ) {
                 out.push(v("events_extra", prog.ev(*ev).map(|m| m.kind), format!("event {}#{} is not in the reference run", ev, occ)));
+            }
+        }
+        let mut flagged = false;
+        for r in obs.log.iter().filter(|r| r.seq > cancel_seq && matches!(r.ph, Ph::Create | Ph::Arrive | Ph::Pass)) {
+            if flagged {
+                break;
+            }
+            if let Some(e) = refnp.events.iter().find(|e| e.ev == r.ev && e.occ == r.occ) {
+                let in_spawned_task = e.tag.iter().any(|t| {
+                    let k = prog.inv_kind(t.inv, kind);
+                    let active = prog.inv(t.inv).map(|im| im.depths.iter().filter(|d| **d > t.step).count()).unwrap_or(0);
+                    k.is_async() && k.is_spawn() && t.branch != CALLER && active > 1
+                });
+                if !in_spawned_task {
+                    flagged = true;
+                    out.push(v(
+                        "runs_after_cancel",
+                        prog.ev(r.ev).map(|m| m.kind),
+                        format!("event {}#{} ran (seq {}) after the macro's future was dropped (seq {}) although it does not belong to a spawned task", r.ev, r.occ, r.seq, cancel_seq),
+                    ));
+                }
             }
         }
         sum.viols = out;
